@@ -20,13 +20,15 @@ Definition raw_wf (k : keys) (r : raw) : bool :=
   (List.length (snd r) =? List.length (fst k))%nat.
 
 (** blocked accounts (BankKeeper.BlockedAddr), keys, initial snapshot, then per tx (messages, accepted?, snapshot after) *)
-Definition case : Type := list string * keys * raw * list (list op * bool * raw).
+(** [gen]: the admins the genesis section of the case states (denom, admin; "" = renounced) — the
+    import must install exactly these *)
+Definition case : Type := list string * list (string * option string) * keys * raw * list (list op * bool * raw).
 
 Definition trace_of (k : keys) (t : list (list op * bool * raw)) : list (list op * bool * snap) :=
   map (fun e => (fst (fst e), snd (fst e), mk_snap k (snd e))) t.
 
 Definition case_wf (c : case) : bool :=
-  let '(_, k, r0, t) := c in raw_wf k r0 && forallb (fun e => raw_wf k (snd e)) t.
+  let '(_, _, k, r0, t) := c in raw_wf k r0 && forallb (fun e => raw_wf k (snd e)) t.
 
 Definition init_state (s0 : snap) : st :=
   {| admins := fun d => match lookup d (sn_admin s0) with Some a => a | None => None end;
@@ -48,12 +50,20 @@ Fixpoint trace_mismatch (blocked : list string) (s : st) (t : list (list op * bo
       negb (Bool.eqb mok ok) || negb (snap_eqb (snap_of s' cur) cur) || trace_mismatch blocked s' r
   end.
 
+(** genesis import installs the stated admin of every genesis denom *)
+Definition genesis_ok (gen : list (string * option string)) (s0 : snap) : bool :=
+  forallb (fun e : string * option string =>
+             match lookup (fst e) (sn_admin s0) with Some a => opt_str_eqb a (snd e) | None => false end) gen.
+
 Definition mismatch (c : case) : bool :=
-  let '(blocked, k, r0, t) := c in
-  negb (case_wf c) || trace_mismatch blocked (init_state (mk_snap k r0)) (trace_of k t).
+  let '(blocked, gen, k, r0, t) := c in
+  negb (case_wf c) || negb (genesis_ok gen (mk_snap k r0)) ||
+  trace_mismatch blocked (init_state (mk_snap k r0)) (trace_of k t).
 
 (** the property as the implementation realises it (MsgBurnNative may burn the signer's own coins
     of any denom) … *)
-Definition violates (c : case) : bool := let '(bl, k, r0, t) := c in negb (Pb false bl (mk_snap k r0) (trace_of k t)).
+Definition violates (c : case) : bool :=
+  let '(bl, gen, k, r0, t) := c in negb (genesis_ok gen (mk_snap k r0) && Pb false bl (mk_snap k r0) (trace_of k t)).
 (** … and to the letter (a tf supply moves only by its admin's Mint / Burn) *)
-Definition violates_strict (c : case) : bool := let '(bl, k, r0, t) := c in negb (Pb true bl (mk_snap k r0) (trace_of k t)).
+Definition violates_strict (c : case) : bool :=
+  let '(bl, gen, k, r0, t) := c in negb (genesis_ok gen (mk_snap k r0) && Pb true bl (mk_snap k r0) (trace_of k t)).
